@@ -865,33 +865,33 @@ package anytype
 //@   panics_iff false
 //@   ensures  result == jquote(str)
 
-//@ extern strconv.Itoa
+//@ extern strconv.Itoa pure
 //@   assigns  nothing
 //@   panics_iff false
 //@   ensures  result == itoa(i)
 
-//@ extern strconv.FormatBool
+//@ extern strconv.FormatBool pure
 //@   assigns  nothing
 //@   panics_iff false
 //@   ensures  result == fmtBool(b)
 
-//@ extern strconv.FormatFloat
+//@ extern strconv.FormatFloat pure
 //@   assigns  nothing
 //@   panics_iff false
 //@   ensures  fmt == 'e' ==> result == ffmtE(f)
 //@   ensures  fmt == 'f' ==> result == ffmtF(f)
 
-//@ extern strings.Contains
+//@ extern strings.Contains pure
 //@   assigns  nothing
 //@   panics_iff false
 //@   ensures  substr == "." ==> result == hasDot(s)
 
-//@ extern math.Abs
+//@ extern math.Abs pure
 //@   assigns  nothing
 //@   panics_iff false
 //@   ensures  same(result, fabs(x))
 
-//@ extern math.Pow10
+//@ extern math.Pow10 pure
 //@   assigns  nothing
 //@   panics_iff false
 //@   ensures  same(result, pow10(n))
@@ -928,7 +928,7 @@ package anytype
 //@   panics_iff false
 //@   ensures  jv: JV(result, ego.ptr)
 
-//@ extern strings.Repeat
+//@ extern strings.Repeat pure
 //@   assigns  nothing
 //@   panics_iff count < 0
 //@   ensures  true
@@ -1073,29 +1073,29 @@ package anytype
 // Parser (C04, C20)
 // ---------------------------------------------------------------------------
 
-//@ extern unicode/utf8.DecodeRuneInString
+//@ extern unicode/utf8.DecodeRuneInString pure
 //@   assigns  nothing
 //@   panics_iff false
 //@   ensures  size-range: 0 <= size && size <= 4 && size <= len(s) && (len(s) > 0 ==> size >= 1)
 //@   ensures  ascii: len(s) > 0 && r < 128 ==> size == 1 && r == s[0]
 //@   ensures  rune-range: 0 <= r && r <= 1114111
 
-//@ extern unicode.IsSpace
+//@ extern unicode.IsSpace pure
 //@   assigns  nothing
 //@   panics_iff false
 //@   ensures  newline-is-space: r == '\n' ==> result
 
-//@ extern strconv.ParseInt
+//@ extern strconv.ParseInt pure
+//@   assigns  nothing
+//@   panics_iff false
+//@   ensures  index-syntax: base == 0 && bitSize == 64 ==> (result1 == nil) == isIdx(s) && (result1 == nil ==> result0 == parseIdx(s))
+
+//@ extern strconv.ParseFloat pure
 //@   assigns  nothing
 //@   panics_iff false
 //@   ensures  true
 
-//@ extern strconv.ParseFloat
-//@   assigns  nothing
-//@   panics_iff false
-//@   ensures  true
-
-//@ extern strconv.ParseBool
+//@ extern strconv.ParseBool pure
 //@   assigns  nothing
 //@   panics_iff false
 //@   ensures  true
@@ -1130,14 +1130,14 @@ package anytype
 //@ instantiate parse-machine(parseList, vlref, ']', isVList, list)
 //@ instantiate parse-machine(parseObject, voref, '}', isVObj, object)
 
-//@ extern strings.Index
+//@ extern strings.Index pure
 //@   assigns  nothing
 //@   panics_iff false
 //@   ensures  range: -1 <= result && result <= len(s) - len(substr)
 //@   ensures  found: result >= 0 && len(substr) == 1 ==> s[result] == substr[0]
 //@   ensures  first: len(substr) == 1 ==> (forall k int :: 0 <= k && k < len(s) && (result < 0 || k < result) ==> s[k] != substr[0])
 
-//@ extern strings.Count
+//@ extern strings.Count pure
 //@   assigns  nothing
 //@   panics_iff false
 //@   ensures  range: 0 <= result && result <= len(s) + 1 && (len(substr) >= 1 ==> result <= len(s))
@@ -1162,3 +1162,27 @@ package anytype
 //@   assigns  nothing
 //@   panics_iff false
 //@   ensures  exclusive: (result1 != nil && result0 == nil) || (result1 == nil && isVObj(result0) && okVal(result0))
+
+// ---------------------------------------------------------------------------
+// Tree form reads (C10): result == stepwise navigation, one segment per call
+// ---------------------------------------------------------------------------
+
+//@ func (*object).TypeOfTF pure [C10]
+//@   requires invO(ego)
+//@   panics_iff false
+//@   ensures  kind: result == tfKindO(ego, tf)
+
+//@ func (*list).TypeOfTF pure [C10]
+//@   requires invL(ego)
+//@   panics_iff false
+//@   ensures  kind: result == tfKindL(ego, tf)
+
+//@ func (*object).GetTF pure [C10 C19]
+//@   requires invO(ego)
+//@   panics_iff !tfDefO(ego, tf)
+//@   ensures  value: result == tfValO(ego, tf)
+
+//@ func (*list).GetTF pure [C10 C19]
+//@   requires invL(ego)
+//@   panics_iff !tfDefL(ego, tf)
+//@   ensures  value: result == tfValL(ego, tf)
